@@ -196,6 +196,7 @@ func runC01(ctx *core.Ctx, idx int) *core.Result {
 	if idx%500 == 77 {
 		// a loop pattern with a written init / post statement never rewrites a loop with another one (shared with C04)
 		forWrittenHeaderCase(ctx, idx/500, res, "C01")
+		caseClauseCase(ctx, idx/500, res, "C01")
 	}
 	c := g.RandomChange()
 	if idx%3 == 1 {
